@@ -98,6 +98,42 @@ fn exec_session(out: &mut Out, run: u64, w: &World, rng: &mut StdRng, gas_limit:
 
 const R: u8 = 0x10;
 
+/// operand pairs aimed at the decision boundaries of one opcode (perfect powers +-1 for roots / logs, products and powers
+/// around 2^64, shift counts around 64, zero divisors); None = use the generic boundary picker
+fn special_pair(rng: &mut StdRng, opc: u8) -> Option<(u64, u64)> {
+    let pm = |rng: &mut StdRng, x: u64| match rng.gen_range(0..3) { 0 => x.wrapping_sub(1), 1 => x, _ => x.wrapping_add(1) };
+    match opc {
+        0x18 => { // MROO: k^n - 1, k^n, k^n + 1 with root n
+            let n = rng.gen_range(2..=8u32);
+            let kmax = (u64::MAX as f64).powf(1.0 / n as f64) as u64;
+            let k = if rng.gen_bool(0.5) { rng.gen_range(2..=60u64.min(kmax)) } else { rng.gen_range(2..=kmax.max(2)) };
+            let p = k.checked_pow(n).unwrap_or(u64::MAX);
+            Some((pm(rng, p), if rng.gen_range(0..8) == 0 { rng.gen_range(0..70) } else { n as u64 }))
+        }
+        0x17 => { // MLOG: b^e - 1, b^e, b^e + 1 with base b
+            let b = [2u64, 3, 7, 10, 16, 255, 256, 65536, 1 << 32][rng.gen_range(0..9)];
+            let emax = (64.0 / (b as f64).log2()) as u32;
+            let e = rng.gen_range(0..=emax);
+            let p = b.checked_pow(e).unwrap_or(u64::MAX);
+            Some((pm(rng, p), b))
+        }
+        0x14 | 0x53 => { // EXP / EXPI: b^c around 2^64
+            let c = if opc == 0x53 { rng.gen_range(0..70u64) } else { [0u64, 1, 2, 3, 4, 8, 16, 31, 32, 33, 63, 64, 65, 1 << 32, u64::MAX][rng.gen_range(0..15)] };
+            let b = if c >= 1 && c <= 64 { let r = (u64::MAX as f64).powf(1.0 / c as f64) as u64; pm(rng, r) } else { rng.gen_range(0..4) };
+            Some((b, c))
+        }
+        0x1b | 0x55 => { // MUL / MULI: products around 2^64
+            let a = [1u64 << 32, (1 << 32) - 1, (1 << 32) + 1, u64::MAX / 3, u64::MAX / 2 + 1, 1 << 63, 3_037_000_500, 4_294_967_295][rng.gen_range(0..8)];
+            Some((a, if opc == 0x55 { rng.gen_range(0..4096) } else { pm(rng, u64::MAX / a.max(1)) }))
+        }
+        0x10 | 0x50 => { let d = rng.gen_range(0..4096u64); Some((pm(rng, u64::MAX - d), rng.gen_range(0..4097))) }   // ADD around the wrap
+        0x20 | 0x59 => { let a = rng.gen_range(0..5000u64); Some((a, pm(rng, a))) }                    // SUB around zero
+        0x1e | 0x1f | 0x57 | 0x58 => Some((rng.gen::<u64>() | 1 | (1 << 63), [0u64, 1, 62, 63, 64, 65, 127, 128, 1 << 32, u64::MAX][rng.gen_range(0..10)])),
+        0x12 | 0x19 | 0x52 | 0x54 => Some((pick(rng, false), [0u64, 1, 2, u64::MAX][rng.gen_range(0..4)])),
+        _ => None,
+    }
+}
+
 /// C21: every register-level ALU instruction x boundary operand pairs x flags x destinations
 fn alu(o: &Opts, out: &mut Out, run: &mut u64) {
     let thorough = o.thorough();
@@ -119,7 +155,8 @@ fn alu(o: &Opts, out: &mut Out, run: &mut u64) {
     for (opc, shape) in ops {
         for k in 0..per_op {
             let flag = if k % 5 == 0 { rng.gen_range(0..4) } else { [0u64, 0, 1, 2, 3][rng.gen_range(0..5)] };
-            let (b, c, d) = (pick(&mut rng, thorough), pick(&mut rng, thorough), pick(&mut rng, thorough));
+            let (mut b, mut c, d) = (pick(&mut rng, thorough), pick(&mut rng, thorough), pick(&mut rng, thorough));
+            if rng.gen_bool(0.45) { if let Some((x, y)) = special_pair(&mut rng, opc) { b = x; c = y; } }
             // destination: mostly a writable register, sometimes $zero/$one/other reserved, sometimes aliasing a source
             let dst: u8 = match rng.gen_range(0..20) { 0 => rng.gen_range(0..16), 1 => 0x11, 2 => 0x12, 3 => 63, _ => R };
             let gas = match rng.gen_range(0..12) { 0 => rng.gen_range(0..4), _ => 1_000_000 };
@@ -131,7 +168,7 @@ fn alu(o: &Opts, out: &mut Out, run: &mut u64) {
                 '2' => enc_rrr(opc, dst, 0x11, 0) & 0xfffff000,
                 '4' => enc_rrrr(opc, dst, 0x11, 0x12, 0x13),
                 'n' => enc_rrrr(opc, dst, 0x11, 0x12, rng.gen_range(0..64)),
-                'i' => enc_rri(opc, dst, 0x11, if rng.gen_bool(0.7) { *imm_b.choose(&mut rng).unwrap() } else { rng.gen_range(0..4096) }),
+                'i' => enc_rri(opc, dst, 0x11, if c < 4096 && rng.gen_bool(0.5) { c as u16 } else if rng.gen_bool(0.7) { *imm_b.choose(&mut rng).unwrap() } else { rng.gen_range(0..4096) }),
                 'j' => enc_ri18(opc, dst, if rng.gen_bool(0.5) { [0u32, 1, 0x3ffff, 0x20000, 0x1ffff][rng.gen_range(0..5)] } else { rng.gen_range(0..0x40000) }),
                 _ => enc_i24(opc, 0),
             };
@@ -206,7 +243,7 @@ fn flow(o: &Opts, out: &mut Out, run: &mut u64) {
             let imm24: u32 = if rng.gen_bool(0.6) { [0u32, 1, 2, 0xffffff, 0xfffffe, 0x800000, (MEM / 4) as u32, (MEM / 4 - 1) as u32][rng.gen_range(0..8)] } else { rng.gen_range(0..0x1000000) };
             let raw = match shape {
                 'k' => enc_i24(opc, imm24),
-                'i' => if opc == 0x99 { enc_rri(opc, dst, 0x12, imm12) } else { enc_rri(opc, 0x11, 0x12, imm12) },
+                'i' => if opc == 0x99 { if rng.gen_bool(0.3) { enc_rri(opc, 0x12, 0x12, imm12) } else { enc_rri(opc, dst, 0x12, imm12) } } else { enc_rri(opc, 0x11, 0x12, imm12) },
                 'j' => enc_ri18(opc, 0x11, imm18),
                 '1' => enc_rrr(opc, 0x11, 0, 0) & 0xfffc0000,
                 '3' => enc_rrr(opc, 0x11, 0x12, 0x13),
@@ -295,14 +332,15 @@ fn gen_program(rng: &mut StdRng) -> Vec<u8> {
     let mut p: Vec<Instruction> = vec![];
     let r = |k: u8| RegId::new(0x10 + k);
     for k in 0..4u8 { p.push(op::movi(r(k), rng.gen_range(0..0x40000))); }
-    if rng.gen_bool(0.5) { p.push(op::movi(r(9), rng.gen_range(0..4))); p.push(op::flag(r(9))); }
-    p.push(op::cfei(rng.gen_range(1..6) * 16));
-    if rng.gen_bool(0.7) { p.push(op::movi(r(4), [8u32, 64, 1000, 70000][rng.gen_range(0..4)])); p.push(op::aloc(r(4))); }
+    if rng.gen_bool(0.8) { p.push(op::movi(r(9), if rng.gen_bool(0.75) { 3 } else { rng.gen_range(0..4) })); p.push(op::flag(r(9))); }
+    p.push(op::cfei(128));
+    p.push(op::movi(r(4), [64u32, 64, 1000, 70000][rng.gen_range(0..4)])); p.push(op::aloc(r(4)));
     let n_body = rng.gen_range(3..40);
     let mut loop_open: Option<usize> = None;
     for _ in 0..n_body {
         let (a, b, c) = (r(rng.gen_range(0..8)), r(rng.gen_range(0..8)), r(rng.gen_range(0..8)));
-        let ins = match rng.gen_range(0..34) {
+        let pickn = if rng.gen_range(0..12) == 0 { rng.gen_range(0..34) } else { [0, 1, 2, 3, 4, 5, 6, 7, 8, 9, 10, 11, 12, 13, 14, 15, 16, 17, 18, 19, 20, 21, 24, 25, 28, 29, 30, 32, 33][rng.gen_range(0..29)] };
+        let ins = match pickn {
             0 => op::add(a, b, c), 1 => op::sub(a, b, c), 2 => op::mul(a, b, c), 3 => op::div(a, b, c), 4 => op::exp(a, b, c),
             5 => op::mlog(a, b, c), 6 => op::mroo(a, b, c), 7 => op::mod_(a, b, c), 8 => op::sll(a, b, c), 9 => op::srl(a, b, c),
             10 => op::xor(a, b, c), 11 => op::not(a, b), 12 => op::addi(a, b, rng.gen_range(0..4096)), 13 => op::subi(a, b, rng.gen_range(0..4096)),
@@ -313,7 +351,7 @@ fn gen_program(rng: &mut StdRng) -> Vec<u8> {
             23 => op::lw(a, b, rng.gen_range(0..4)),          // wild load
             24 => op::mcpi(RegId::HP, RegId::SSP, rng.gen_range(0..16)),
             25 => op::mcli(RegId::SSP, rng.gen_range(0..40)),
-            26 => op::pshl(rng.gen_range(0..0x100)), 27 => op::popl(rng.gen_range(0..0x100)),
+            26 => op::pshl(rng.gen_range(0..0x100)), 27 => op::popl(rng.gen_range(0..0x8)),
             28 => op::log(a, b, c, RegId::ZERO),
             29 => op::movi(a, rng.gen_range(0..0x40000)),
             30 => op::move_(a, if rng.gen_bool(0.5) { RegId::SP } else { RegId::HP }),
@@ -344,9 +382,9 @@ fn gen_program(rng: &mut StdRng) -> Vec<u8> {
         p.push(op::addi(r(12), r(12), ((l + 1) * 4) as u16 & 0xfff));
         p.push(op::jal(r(11), r(12), 0));
     }
-    match rng.gen_range(0..10) {
+    match rng.gen_range(0..16) {
         0 => p.push(op::rvrt(r(0))),
-        1 => { p.push(op::movi(r(5), rng.gen_range(0..40))); p.push(op::retd(RegId::SSP, r(5))); }
+        1 | 4 | 5 => { p.push(op::movi(r(5), rng.gen_range(0..40))); p.push(op::retd(RegId::SSP, r(5))); }
         2 => {}                                            // run off the end
         3 => p.push(op::jmp(r(3))),                        // wild jump
         _ => p.push(op::ret(r(rng.gen_range(0..4)))),
@@ -573,7 +611,7 @@ fn asset_ops(rng: &mut StdRng, ctx_contract: bool, other: u8 /* register holding
     for _ in 0..n {
         let amt = if rng.gen_range(0..14) == 0 { [0u32, 100_000, 501][rng.gen_range(0..3)] } else { [1u32, 1, 2, 7, 100, 250][rng.gen_range(0..6)] };
         p.push(op::movi(r(15), amt));
-        match rng.gen_range(0..if ctx_contract { 9 } else { 5 }) {
+        match rng.gen_range(0..if ctx_contract { 10 } else { 5 }) {
             0 => p.push(op::tr(RegId::new(other), r(15), r(31))),
             1 => { p.push(op::movi(r(16), if rng.gen_bool(0.85) { rng.gen_range(1..4) } else { rng.gen_range(0..7) })); p.push(op::tro(r(30), r(16), r(15), r(31))); }
             2 => { p.push(op::movi(r(17), [0u32, 1, 8, 33][rng.gen_range(0..4)])); p.push(op::smo(r(30), r(30), r(17), r(15))); }
@@ -581,6 +619,10 @@ fn asset_ops(rng: &mut StdRng, ctx_contract: bool, other: u8 /* register holding
             4 => p.push(op::log(RegId::BAL, r(18), RegId::CGAS, RegId::ZERO)),
             5 | 6 => p.push(op::mint(r(15), r(30))),
             7 => { p.push(op::movi(r(15), rng.gen_range(0..3))); p.push(op::burn(r(15), r(30))); }
+            8 if ctx_contract => { // drain: send the whole current balance of the forwarded asset away (leaves an entry holding 0)
+                p.push(op::bal(r(18), r(31), RegId::FP));
+                p.push(op::tr(RegId::new(other), r(18), r(31)));
+            }
             _ => p.push(op::bal(r(18), r(31), RegId::FP)),
         }
     }
@@ -598,7 +640,7 @@ fn assets(o: &Opts, out: &mut Out, run: &mut u64) {
         let asset: AssetId = if k % 3 == 0 { base } else { rng.gen() };
         let r = |k: u8| RegId::new(0x10 + k);
         // bank contract: asset ops on the forwarded asset, then a terminator
-        let mut bank = vec![op::addi(r(13), RegId::FP, 0)];           // r13 -> own id
+        let mut bank = vec![op::gtf_args(r(13), RegId::ZERO, GTFArgs::ScriptData), op::addi(r(13), r(13), 80)];   // r13 -> the other contract's id
         bank.push(op::lw(r(8), RegId::FP, 73));
         let nb = rng.gen_range(1..7); bank.extend(asset_ops(&mut rng, true, 0x10 + 13, nb));
         match rng.gen_range(0..14) { 0 => bank.push(op::rvrt(RegId::ONE)), 1 => bank.push(op::sw(RegId::ZERO, RegId::ONE, 0)), _ => bank.push(op::ret(RegId::BAL)) }
@@ -613,10 +655,10 @@ fn assets(o: &Opts, out: &mut Out, run: &mut u64) {
         sc.push(op::gtf_args(r(0), RegId::ZERO, GTFArgs::ScriptData));
         sc.push(op::addi(r(31), r(0), 48));
         sc.push(op::addi(r(12), r(0), 80));
-        if rng.gen_bool(0.6) { let ns = rng.gen_range(1..5); sc.extend(asset_ops(&mut rng, false, 0x10 + 12, ns)); sc.push(op::addi(r(31), r(0), 48)); }
+        if rng.gen_bool(0.6) { let ns = rng.gen_range(1..5); let tgt = if rng.gen_bool(0.5) { 0x10 + 12 } else { 0x10 }; sc.extend(asset_ops(&mut rng, false, tgt, ns)); sc.push(op::addi(r(31), r(0), 48)); }
         sc.push(op::movi(r(2), (amount & 0x3ffff) as u32));
         sc.push(op::call(r(0), r(2), r(31), RegId::CGAS));
-        if rng.gen_bool(0.4) { sc.extend(asset_ops(&mut rng, false, 0x10 + 12, 2)); }
+        if rng.gen_bool(0.6) { let tgt = if rng.gen_bool(0.6) { 0x10 } else { 0x10 + 12 }; sc.extend(asset_ops(&mut rng, false, tgt, 2)); }
         match rng.gen_range(0..10) { 0 => sc.push(op::rvrt(RegId::ONE)), _ => sc.push(op::ret(RegId::RET)) }
         tb.start_script(sc, data).gas_price(0).script_gas_limit(match rng.gen_range(0..10) { 0 => rng.gen_range(100..3000), _ => 400_000 })
             .contract_input(c1).contract_input(c2)
